@@ -5,6 +5,8 @@ CONSTANTS
   SC <- MC_SC
   OPS <- MC_OPS
   BATCH <- MC_BATCH
+  ITEMS <- MC_ITEMS
+  WIDTHS <- MC_WIDTHS
 INVARIANT DesignOK
 INVARIANT RankLawOK
 CHECK_DEADLOCK FALSE
